@@ -11,9 +11,32 @@ use crate::util::{Cfg, Rng};
 use helgoboss_midi::*;
 use serde_json::{json, Value};
 
+thread_local! {
+    /// second pass: the same inputs through a deserializer that reports
+    /// `is_human_readable() == false`, as binary formats do
+    static NOT_HUMAN_PASS: std::cell::Cell<bool> = std::cell::Cell::new(false);
+}
+
+fn not_human_pass() -> bool {
+    NOT_HUMAN_PASS.with(|c| c.get())
+}
+
 fn from<T: serde::de::DeserializeOwned + Observe>(entry: &'static str, v: &Value) -> Result<Option<T>, String> {
     // Ok(None) = deserialization failed (fine); Ok(Some) = value; Err = panicked
     let v2 = v.clone();
+    if not_human_pass() {
+        // whatever the non-human-readable path accepts is judged like any other accepted value;
+        // what it rejects is not held against it (a format-dependent representation is
+        // legitimate), the human-readable result stands in
+        let v3 = v.clone();
+        return api_probe(entry, move || {
+            let nh = T::deserialize(super::nothuman::NotHuman(v2)).ok();
+            match nh {
+                Some(y) => Some(y),
+                None => serde_json::from_value::<T>(v3).ok(),
+            }
+        });
+    }
     match api_probe(entry, move || serde_json::from_value::<T>(v2).ok()) {
         Ok(x) => Ok(x),
         Err(m) => Err(m),
@@ -105,7 +128,15 @@ macro_rules! primitive_deserializers {
                     let v: $prim = v;
                     let r = api_probe("Deserialize for <restricted integer> (primitive deserializer)", || {
                         let d: <$prim as IntoDeserializer<E>>::Deserializer = v.into_deserializer();
-                        <$T>::deserialize(d).ok()
+                        if not_human_pass() {
+                            let d2: <$prim as IntoDeserializer<E>>::Deserializer = v.into_deserializer();
+                            match <$T>::deserialize(super::nothuman::NotHuman(d2)).ok() {
+                                Some(y) => Some(y),
+                                None => <$T>::deserialize(d).ok(),
+                            }
+                        } else {
+                            <$T>::deserialize(d).ok()
+                        }
                     });
                     rep.evaluations += 1;
                     let in_range = (v as i128) >= 0 && (v as i128) <= $max as i128;
@@ -400,6 +431,19 @@ fn judge_pn(input: &Value, m: ParameterNumberMessage, rep: &mut Report) {
 }
 
 pub fn run(cfg: &Cfg, rep: &mut Report) {
+    NOT_HUMAN_PASS.with(|c| c.set(false));
+    run_pass(cfg, rep);
+    // "any input" includes any format: the same workload through an adapter that reports
+    // is_human_readable() == false to the Deserialize implementations, at every nesting level
+    NOT_HUMAN_PASS.with(|c| c.set(true));
+    let before = rep.evaluations;
+    run_pass(cfg, rep);
+    NOT_HUMAN_PASS.with(|c| c.set(false));
+    rep.count("c19_inputs_through_a_non_human_readable_deserializer", rep.evaluations - before);
+    rep.rule("the whole workload a second time through a deserializer adapter reporting is_human_readable() == false (as bincode/postcard do), wrapped around the same self-describing input at every nesting level; in that pass only accepted values are judged");
+}
+
+fn run_pass(cfg: &Cfg, rep: &mut Report) {
     rep.rule("serde_json::Value -> from_value::<T> for every public type: restricted integers <- every u16 plus negative / too wide / float / string / bool / null / array / object inputs; ShortMessageType <- every u8 and beyond; RawShortMessage <- every status byte x boundary data bytes and wrong arities; StructuredShortMessage, TimeCodeQuarterFrame, TimeCodeType, DataType, ControlChange14BitMessage, ParameterNumberMessage <- the natural representation of valid values with every single leaf replaced by boundary / wrong-type values, fields removed and added, plus boundary products of the composite fields; oracle: Err, or a value that passes the range observer and is rebuildable through the checked constructors (and whose accessors/encoders do not panic); round trip from_value(to_value(v)) == v over sweeps of valid values; non-trivial = an input whose acceptance is decided by an invariant (not by shape alone) ; sequence-shaped (positional) round trip of ControlChange14BitMessage and ParameterNumberMessage");
     let mut rng = Rng::derive(cfg.seed, 0xC19);
     newtype_sweep!(U4, "U4", 15u32, rep);
@@ -737,7 +781,7 @@ pub fn run(cfg: &Cfg, rep: &mut Report) {
         }
     }
     rep.set_exhaustive(false);
-    rep.assume("decided for self-describing input (serde_json::Value / JSON text), which is what the derives consume; binary formats call the same visitor methods");
+    rep.assume("decided for self-describing input (serde_json::Value / JSON text, also behind an adapter that reports is_human_readable() == false); a binary format's own framing is not reproduced");
     rep.sample(json!({"type":"U7","input":128,"expected":"Err"}));
     rep.sample(json!({"type":"RawShortMessage","input":[2,3,4],"expected":"Err (status byte below 0x80)"}));
     rep.sample(json!({"type":"ControlChange14BitMessage","input":{"channel":0,"msb_controller_number":64,"value":0},"expected":"Err"}));
